@@ -28,7 +28,7 @@ def hypo_moments(n):
 def ref_moments(n):
     """exact (mean[k], var[k]) for k = 0..n from the closed-form level weights
     w(a,k,n) = a(a-1) C(n-a-1,k-2) / (2 C(n,k+1)) (Coq: PriorMarg.W; tied to the Kingman
-    chain for n <= 28 by C14_kingman_bounded and re-tied for n <= 10 on every run by
+    chain for n <= 24 by C14_kingman_bounded and re-tied for n <= 10 on every run by
     kingman_py below); entries 0 and 1 are 0"""
     m, v = hypo_moments(n)
     means = [F(0), F(0)]
